@@ -231,10 +231,18 @@ impl Report {
         self.new_violations
     }
 
+    /// Vacuity guard (only meaningful when the run found no violation: a violation stops the
+    /// exploration early, so counters may legitimately be 0 then).
+    pub fn vacuous(&self, msg: &str) {
+        if self.new_violations == 0 && self.known_hits == 0 {
+            machinery(msg);
+        }
+    }
+
     /// Vacuity guard: a check whose key activation counter is 0 explored nothing of interest.
     pub fn require_nonzero(&self, keys: &[&str]) {
         for k in keys {
-            if self.get(k) == 0 {
+            if self.get(k) == 0 && self.new_violations == 0 {
                 machinery(&format!(
                     "vacuous exploration of {}: activation counter '{}' is 0",
                     self.property, k
@@ -394,6 +402,11 @@ where
             if let Some(t) = &out.terminal {
                 terminals.insert(t.clone());
             }
+            // activation counters describe the last step of the execution, i.e. one explored
+            // transition each (also when the target state was seen before)
+            for (k, v) in &out.counters {
+                *stats.counters.entry(k).or_insert(0) += v;
+            }
             let new = match seen.get(&out.fp) {
                 Some(&s) if s <= node.spent => false,
                 _ => true,
@@ -405,9 +418,6 @@ where
             seen.insert(out.fp, node.spent);
             if first_time {
                 stats.states += 1;
-                for (k, v) in &out.counters {
-                    *stats.counters.entry(k).or_insert(0) += v;
-                }
                 if sampled < 6 && (depth >= 2 || out.enabled.is_empty()) {
                     on_sample(&node.hist, &out);
                     sampled += 1;
